@@ -229,6 +229,17 @@ fn build(tier: Tier) -> Vec<Scenario> {
     // whole jobs with slow sources and timed batching: a watermark must not overtake data that
     // is still buffered on its link
     out.extend(crate::props::timed::scenarios("C06", tier == Tier::Quick, "C06"));
+    // zip of timestamped streams through the real two-input Start, every interleaving of the two
+    // sides: a pair stamped below a watermark that zip has already forwarded
+    for a in 0..=2usize {
+        for b in 0..=2usize {
+            for off in [0i64, 2] {
+                let mut s = crate::props::c09::zip_timestamped(a, b, off);
+                s.name = s.name.replace("C09/", "C06/");
+                out.push(s);
+            }
+        }
+    }
     out
 }
 
@@ -236,7 +247,7 @@ pub fn spec() -> PropSpec {
     PropSpec {
         id: "C06",
         build,
-        rule: "(1) the real Start/WatermarkFrontier fed by 2-3 upstream replicas: every contract-respecting per-replica sequence, all arrival interleavings, two batchings; (2) every stateful/stateless operator on the timestamped path (keyed fold/reduce, global fold behind its Start, two-phase keyed fold, reorder, flat_map, map+filter, rich_map, count / event-time / transaction windows for several sizes and slides incl. watermark equal to a window end): all contract-respecting histories over 2 keys up to the length bound; monitor: after Watermark(t) no element with timestamp <= t and no watermark <= t until the end of the iteration; non-trivial = history with both watermarks and elements",
+        rule: "(1) the real Start/WatermarkFrontier fed by 2-3 upstream replicas: every contract-respecting per-replica sequence, all arrival interleavings, two batchings; (2) every stateful/stateless operator on the timestamped path (keyed fold/reduce, global fold behind its Start, two-phase keyed fold, reorder, flat_map, map+filter, rich_map, count / event-time / transaction windows for several sizes and slides incl. watermark equal to a window end; timestamped zip and merge under every answer of the two-way select; interval joins as jobs): all contract-respecting histories over 2 keys up to the length bound; monitor: after Watermark(t) no element with timestamp <= t and no watermark <= t until the end of the iteration; non-trivial = history with both watermarks and elements",
         assumptions: &["histories up to the stated length, timestamps 0..=4"],
         exhaustive_when_uncapped: true,
         budget_s: (50, 1200),
